@@ -72,7 +72,8 @@ def make_value(kind, token):
 NAMES_SECRET = ['secret', 'secret_key', 'api_secret', 'my_secret_token', 'xsecretx', 'db_secret_', 'secrets', 'client-secret', 'a.secret.b']
 NAMES_PLAIN = ['db', 'config', 'name', 'iterable', 'start', 'api_key_id', 'motd', 'k', 'res<zq9m>', 'sec_ret', 'secre', 'ecret']
 VALUE_KINDS = ['str', 'bytes', 'int', 'list', 'dict', 'tuple', 'reprobj', 'long', 'markup', 'nested', 'set', 'badstr', 'none', 'float']
-ENDPOINTS = ['func', 'lambda', 'method', 'callable', 'static', 'classm', 'decorated', 'builtin', 'uses-resource', 'doc']
+ENDPOINTS = ['func', 'lambda', 'method', 'callable', 'static', 'classm', 'decorated', 'builtin', 'uses-resource', 'doc',
+             'defaults', 'defaults-kwonly', 'defaults-mixed']
 
 
 def strategy():
@@ -141,6 +142,18 @@ def build(case):
     def doc_ep():
         """Docstring with <zq9doc> markup & a link http://example.test/?a=1&b=2"""
         return {'x': 1}
+    import time, datetime, decimal
+
+    # parameters nothing provides, with defaults of every sort (callables, sentinels, classes, bytes, sets, unprintable objects)
+    def defaults_ep(request, clock=time.time, ttl=datetime.timedelta(seconds=5), marker=object(), kind=dict, raw=b'\xff\x00',
+                    tags=frozenset(['a']), price=decimal.Decimal('1.10'), odd=ReprRaises('d'), plain='text', n=None):
+        return Response('d')
+
+    def defaults_kwonly(*, when=datetime.datetime(2020, 1, 2), fn=len, nan=float('nan'), cplx=1j):
+        return Response('k')
+
+    def defaults_mixed(request, seg=None, zq9_unprovided=Ellipsis, also=(1, {2}, [b'x'])):
+        return Response('x')
     routes = []
     first_res = (list(resources) or ['request'])[0]
     if not re.match(r'^[A-Za-z_][A-Za-z0-9_]*$', first_res):
@@ -161,6 +174,12 @@ def build(case):
             routes.append((p, C.cm))
         elif e == 'decorated':
             routes.append((p, clastic_decorator(deco)(func)))
+        elif e == 'defaults':
+            routes.append((p, defaults_ep))
+        elif e == 'defaults-kwonly':
+            routes.append((p, defaults_kwonly))
+        elif e == 'defaults-mixed':
+            routes.append((p + '/<seg?>', defaults_mixed))
         elif e == 'builtin':
             routes.append((p, sum, render_basic))
         elif e == 'uses-resource':
